@@ -153,6 +153,20 @@ impl Property for C13 {
     }
 
     fn explore(&self, rng: &mut Rng, tier: Tier, ex: &mut Explorer<'_>) {
+        if rng.chance(1, 1500) {
+            // more than 1 MiB of non-ASCII inserted content in a legacy encoding: the output
+            // encoder switches from its 63-byte stack buffer to a heap buffer (one schedule only)
+            let label = rng.pick(&["windows-1251", "shift_jis", "gbk", "koi8-u", "euc-kr", "windows-1252"]);
+            let mut sc = Scenario::new(b"<p>x</p><!--c-->".to_vec());
+            sc.encoding = label.to_string();
+            let c = Content { s: "ж€a日".repeat(160_000), html: rng.bool(), stream: if rng.bool() { 2 } else { 0 }, fail_stream: false, utf8_chunks: 0 };
+            sc.handlers = vec![if rng.bool() { HandlerSpec::Element { sel: "p".into(), ops: vec![ElOp::Append(c)] } } else { HandlerSpec::End { ops: vec![c] } }];
+            sc.cuts = vec![3];
+            let mut case = Case::of(sc);
+            case.mode = "insert".into();
+            ex.stats.bump("c13.megabyte_insert");
+            ex.check(case);
+        }
         let (base, mode) = gen_base(rng);
         ex.stats.bump(&format!("c13.encoding.{}", base.encoding));
         let fam = super::c01::schedule_family(rng, &base, tier, &mut ex.stats);
